@@ -32,6 +32,9 @@ type Env struct {
 	Routed   map[int]int
 	prevTransport http.RoundTripper
 	KeepBase bool
+	// PendingFaults are bound to the next request task created by RoundTrip.
+	PendingFaults []sim.Fault
+	LastTaskID    int
 }
 
 type PanicRec struct {
@@ -229,7 +232,14 @@ func (e *Env) RoundTrip(g int, sg *s3c.Signed, co *ConnOpts) *Result {
 		body()
 		return res
 	}
-	e.S.NewTask("req", e.GWs[g].Inst, -1, body)
+	t := e.S.NewTask("req", e.GWs[g].Inst, -1, body)
+	e.LastTaskID = t.ID
+	for _, f := range e.PendingFaults {
+		f := f
+		f.Task = t.ID
+		e.S.Faults = append(e.S.Faults, &f)
+	}
+	e.PendingFaults = nil
 	e.S.Run()
 	return res
 }
